@@ -42,6 +42,50 @@ func (c *ctlSink) Close() error {
 	return nil
 }
 
+// ctlValSink is a comparable value type; every instance of one process compares equal to every other
+// (the per-open state is looked up through the shared registry by call order).
+type ctlValShared0 struct {
+	mu    sync.Mutex
+	opens []*ctlSink
+	next  map[string]int
+}
+
+var ctlValShared = &ctlValShared0{next: map[string]int{}}
+
+type ctlValSink struct {
+	shared *ctlValShared0
+	mine   struct{} // no distinguishing state: two sinks opened for two URLs are == to each other
+}
+
+func ctlValRegister(c *ctlSink) struct{} {
+	ctlValShared.mu.Lock()
+	ctlValShared.opens = append(ctlValShared.opens, c)
+	ctlValShared.mu.Unlock()
+	return struct{}{}
+}
+
+// every method acts on the NEXT not-yet-used open of its kind: Close closes one more opened sink each time it is called
+func (v ctlValSink) pick(kind string) *ctlSink {
+	v.shared.mu.Lock()
+	defer v.shared.mu.Unlock()
+	i := v.shared.next[kind]
+	if i >= len(v.shared.opens) {
+		return &ctlSink{}
+	}
+	v.shared.next[kind] = i + 1
+	return v.shared.opens[i]
+}
+func (v ctlValSink) Write(p []byte) (int, error) { return v.pick("w").Write(p) }
+func (v ctlValSink) Sync() error                 { return v.pick("s").Sync() }
+func (v ctlValSink) Close() error                { return v.pick("c").Close() }
+
+// ctlSliceSink is a value type that cannot be compared (or hashed).
+type ctlSliceSink struct{ inner []*ctlSink }
+
+func (v ctlSliceSink) Write(p []byte) (int, error) { return v.inner[0].Write(p) }
+func (v ctlSliceSink) Sync() error                 { return v.inner[0].Sync() }
+func (v ctlSliceSink) Close() error                { return v.inner[0].Close() }
+
 // ctlWrapSink forwards to another sink opened by its factory.
 type ctlWrapSink struct {
 	*ctlSink
@@ -84,6 +128,18 @@ func ctlRegister(t interface{ Fatalf(string, ...any) }) {
 		err := zap.RegisterSink(ctlScheme, func(u *url.URL) (zap.Sink, error) {
 			if u.Host == "fail" {
 				return nil, errors.New("factory failed for " + u.Path)
+			}
+			if u.Host == "okval" || u.Host == "okslice" {
+				// third-party sinks need not be pointers: a comparable VALUE type whose instances compare equal (all
+				// share one counter), or a value type that is not comparable at all
+				c := &ctlSink{name: u.String()}
+				ctlMu.Lock()
+				ctlOpened = append(ctlOpened, c)
+				ctlMu.Unlock()
+				if u.Host == "okslice" {
+					return ctlSliceSink{inner: []*ctlSink{c}}, nil
+				}
+				return ctlValSink{shared: ctlValShared, mine: ctlValRegister(c)}, nil
 			}
 			if u.Host == "okreenter" {
 				// a wrapping sink: its factory itself uses the registry (opens another registered sink and
@@ -163,7 +219,11 @@ func genC19Paths(t *rapid.T, dir, label string, max int) ([]c19Path, bool) {
 	allOK := true
 	for i := 0; i < n; i++ {
 		var p c19Path
-		switch rapid.IntRange(0, 11).Draw(t, label+"Kind") {
+		switch rapid.IntRange(0, 13).Draw(t, label+"Kind") {
+		case 12:
+			p = c19Path{path: fmt.Sprintf("%s://okval/%s%d", ctlScheme, label, i), kind: "ctl-value", ok: true}
+		case 13:
+			p = c19Path{path: fmt.Sprintf("%s://okslice/%s%d", ctlScheme, label, i), kind: "ctl-slice", ok: true}
 		case 11:
 			// a sink whose factory calls back into zap (Open, RegisterSink)
 			p = c19Path{path: fmt.Sprintf("%s://okreenter/%s%d", ctlScheme, label, i), kind: "ctl-reenter", ok: true}
@@ -206,6 +266,8 @@ func pathsOf(ps []c19Path) []string {
 
 var c19Mu sync.Mutex
 
+var c19EncRegistered = map[string]bool{} // encoder names this process has registered successfully
+
 // c19Watchdog runs f and reports a hang (a sink factory is user code and may call back into zap).
 func c19Watchdog(t interface{ Fatalf(string, ...any) }, what, desc string, f func()) {
 	done := make(chan struct{})
@@ -233,6 +295,9 @@ func propC19Open(t *rapid.T) {
 	ctlMu.Lock()
 	ctlOpened = nil
 	ctlMu.Unlock()
+	ctlValShared.mu.Lock()
+	ctlValShared.opens, ctlValShared.next = nil, map[string]int{}
+	ctlValShared.mu.Unlock()
 	outs, outsOK := genC19Paths(t, dir, "out", 5)
 	errs, errsOK := genC19Paths(t, dir, "err", 4)
 	failEncRegister(t)
@@ -817,14 +882,35 @@ func propC19Registry(t *rapid.T) {
 		}
 	}
 	// encoder registry
-	encName := rapid.SampledFrom([]string{"", "json", "console", "enc" + uniq, "JSON" + uniq}).Draw(t, "encoderName")
-	encOK := encName != "" && encName != "json" && encName != "console"
+	encName := rapid.SampledFrom([]string{"", "json", "console", "enc" + uniq, "JSON" + uniq, "JSON", "Json", "CONSOLE", "Console", "enc" + uniq + "X"}).Draw(t, "encoderName")
+	// encoder names are case-sensitive: a case variant of a built-in name is a NEW name (registrable once per process)
+	encOK := encName != "" && encName != "json" && encName != "console" && !c19EncRegistered[encName]
 	ctor := func(zapcore.EncoderConfig) (zapcore.Encoder, error) {
 		return zapcore.NewJSONEncoder(zapcore.EncoderConfig{MessageKey: "custom"}), nil
 	}
 	eerr := zap.RegisterEncoder(encName, ctor)
 	if (eerr == nil) != encOK {
 		t.Fatalf("RegisterEncoder(%q) error=%v, want success=%v", encName, eerr, encOK)
+	}
+	if eerr == nil {
+		c19EncRegistered[encName] = true
+	}
+	// whatever happened, the built-in encoders are still the built-in ones
+	for _, builtin := range []string{"json", "console"} {
+		bc := zap.NewProductionConfig()
+		bc.Encoding = builtin
+		bc.OutputPaths, bc.ErrorOutputPaths, bc.Sampling = []string{ctlScheme + "://ok/out-builtin"}, nil, nil
+		ctlMu.Lock()
+		ctlOpened = nil
+		ctlMu.Unlock()
+		blg, berr := bc.Build()
+		if berr != nil {
+			t.Fatalf("Build with the built-in %s encoder after RegisterEncoder(%q): %v", builtin, encName, berr)
+		}
+		blg.Info("x")
+		if len(ctlOpened) != 1 || strings.Contains(string(ctlOpened[0].data), `"custom":"x"`) || !strings.Contains(string(ctlOpened[0].data), "x") {
+			t.Fatalf("after RegisterEncoder(%q) the built-in %q encoder is served by another constructor: %q", encName, builtin, ctlOpened[0].data)
+		}
 	}
 	cfg := zap.NewProductionConfig()
 	cfg.OutputPaths, cfg.ErrorOutputPaths, cfg.Sampling = []string{ctlScheme + "://ok/out-enc"}, nil, nil
